@@ -91,6 +91,8 @@ func (fc *FuncCtx) evalCall(st *State, call *ast.CallExpr) Val {
 	if len(call.Args) == 1 && len(args) == 1 && len(args[0].Tuple) > 0 {
 		args = args[0].Tuple
 	}
+	fc.curArgExprs = call.Args
+	fc.curRecvExpr = recvExpr
 	return fc.callFunc(st, fn, recv, recvExpr, args, resT, call.Pos(), call.Ellipsis.IsValid())
 }
 
@@ -250,8 +252,7 @@ func (fc *FuncCtx) evalBuiltin(st *State, name string, call *ast.CallExpr) Val {
 	case "new":
 		t := fc.info.TypeOf(call.Args[0])
 		if isStruct(t) {
-			ref := fc.freshConst("new", SV)
-			st.assume(Not(Eq(ref, Const("nil", SV))))
+			ref := fc.newRef(st, "new")
 			return Val{T: ref, Typ: resT}
 		}
 		tmp := types.NewVar(token.NoPos, nil, "newcell", t)
@@ -518,6 +519,7 @@ func (fc *FuncCtx) defaultCall(st *State, fn *types.Func, recv *Val, args []Val,
 func (fc *FuncCtx) applyContract(st *State, fn *types.Func, c *FuncContract, recv *Val, args []Val, resT types.Type, pos token.Pos, ellipsis bool) Val {
 	sig := fn.Origin().Type().(*types.Signature)
 	names := map[string]Val{}
+	argExprs, recvExprC := fc.curArgExprs, fc.curRecvExpr
 	type writeBack struct {
 		loc  *Loc
 		addr *Term
@@ -643,6 +645,49 @@ func (fc *FuncCtx) applyContract(st *State, fn *types.Func, c *FuncContract, rec
 		arr := fc.heapArr(st, wb.key, wb.loc.Sort)
 		fc.writeLoc(st, wb.loc, fc.nameTerm(st, "wb", Select(arr, wb.addr)))
 	}
+	// write back slice/map parameters the callee modifies in place
+	for _, pn := range sc.modParams {
+		var ex ast.Expr
+		if r := sig.Recv(); r != nil && (r.Name() == pn || pn == "recv") {
+			ex = recvExprC
+		}
+		for i := 0; i < np; i++ {
+			if sig.Params().At(i).Name() == pn && i < len(argExprs) {
+				ex = argExprs[i]
+			}
+		}
+		nv := names[pn]
+		if ex == nil || fc.inSpec {
+			continue
+		}
+		ex = ast.Unparen(ex)
+		if fc.isAddressable(ex) && pointee(fc.info.TypeOf(ex)) == nil {
+			l := fc.evalLoc(st, ex)
+			if l.Sort.Eq(nv.T.Sort) {
+				fc.writeLoc(st, l, nv.T)
+				continue
+			}
+		}
+		if se, ok := ex.(*ast.SliceExpr); ok && fc.isAddressable(se.X) && pointee(fc.info.TypeOf(se.X)) == nil {
+			// x[lo:hi] modified in place: the base keeps its length, the window takes the new contents
+			l := fc.evalLoc(st, se.X)
+			cur := fc.readLoc(st, l)
+			lo := IntLit(0)
+			if se.Low != nil {
+				fc.noOblig++
+				lo = fc.evalExpr(st, se.Low).T
+				fc.noOblig--
+			}
+			r := fc.freshConst("wb", cur.Sort)
+			j := BVar("j!w", SInt)
+			st.assume(Eq(SliceLen(r), SliceLen(cur)))
+			in := And(Le(lo, j), Lt(j, Add(lo, SliceLen(nv.T))))
+			st.assume(Forall([]*Term{j}, Eq(SliceAt(r, j), Ite(in, SliceAt(nv.T, Sub(j, lo)), SliceAt(cur, j))), []*Term{SliceAt(r, j)}))
+			fc.writeLoc(st, l, r)
+			continue
+		}
+		fc.note("callee modifies a slice argument that is not an addressable variable: effect on aliases not modelled")
+	}
 	if c.Assumed {
 		_, k := funcKeyOf(fn)
 		fc.note("assumed (trusted) contract: " + k)
@@ -678,6 +723,22 @@ func (fc *FuncCtx) havocModifies(st *State, c *FuncContract, sc *specCtx, as *as
 		e, err := parseSpecExpr(item)
 		if err != nil {
 			panic(engineError{"bad modifies item " + item})
+		}
+		// a bare slice/map parameter: the callee writes through the caller's slice; new contents, same length
+		if e.Kind == "ident" && sc.callee != nil {
+			if v, ok := sc.names[e.Name]; ok && v.T != nil && (v.T.Sort.Kind == "Slice" || v.T.Sort.Kind == "Map") {
+				nv := fc.freshConst("mod_"+e.Name, v.T.Sort)
+				if v.T.Sort.Kind == "Slice" {
+					st.assume(Eq(SliceLen(nv), SliceLen(v.T)))
+				}
+				if sc.oldNames == nil {
+					sc.oldNames = map[string]Val{}
+				}
+				sc.oldNames[e.Name] = v
+				sc.names[e.Name] = Val{T: nv, Typ: v.Typ}
+				sc.modParams = append(sc.modParams, e.Name)
+				continue
+			}
 		}
 		fc.noOblig++
 		l := fc.specLoc(st, e, sc)
